@@ -23,6 +23,8 @@ THEOREMS = [
     "CM.Generated.gen_match_location_eq",
     "CM.Args.C18_replaceArgs_sets",
     "CM.Args.C18_replaceArgs_not_flagged",
+    "CM.Args.C18_replaceArgs_sets_all",
+    "CM.Args.C18_replaceArgs_not_flagged_all",
 ]
 RULE = (
     "for every rule-detected find-and-fix codemod with snippets: the snippets x context / layout variants and two-site files; the codemod's "
